@@ -89,6 +89,9 @@ enum B {
     NestedExisting,
     NestedMissing,
     Absolute,
+    /// a healthy reply with three files: one whose relative path climbs out ('../x'), one whose path contains '..' but
+    /// stays inside ('pre/../x'), one plain
+    DotDot,
     /// only with the big payload (SOFT-4)
     NoReadReplyOk,
     /// healthy, but the reply (one 100 000 byte file) is larger than the pipe buffer
@@ -101,7 +104,7 @@ enum B {
     Trunc(usize),
 }
 
-const B_ALL: [B; 25] = [
+const B_ALL: [B; 26] = [
     B::Ok0,
     B::Ok1,
     B::Ok3,
@@ -127,6 +130,7 @@ const B_ALL: [B; 25] = [
     B::NestedExisting,
     B::NestedMissing,
     B::Absolute,
+    B::DotDot,
 ];
 
 fn b8() -> [B; 8] {
@@ -137,7 +141,7 @@ fn b8() -> [B; 8] {
 const B_LARGE: [B; 3] = [B::OkBigReply, B::BigReplyBeforeRead, B::NoReadBigStderr];
 
 /// Rows whose reply names files (whether the reply is to be trusted or not).
-const B_WRITING: [B; 11] = [B::Ok1, B::Ok3, B::OkCloseEarly, B::Exit1, B::SigKill, B::StderrExit0, B::Trailing, B::DotRel, B::NestedExisting, B::NestedMissing, B::Absolute];
+const B_WRITING: [B; 12] = [B::Ok1, B::Ok3, B::OkCloseEarly, B::Exit1, B::SigKill, B::StderrExit0, B::Trailing, B::DotRel, B::NestedExisting, B::NestedMissing, B::Absolute, B::DotDot];
 
 #[derive(Clone, Copy, Debug, PartialEq)]
 enum ReadMode {
@@ -394,6 +398,14 @@ fn spec(b: B, gi: usize, work: &str) -> Spec {
             s.files = vec![proc::rfile(&format!("{work}/abs/f{gi}_abs.txt"), "absolute path\n")];
             s.reply = valid(&s.files);
         }
+        B::DotDot => {
+            s.files = vec![
+                proc::rfile(&format!("../f{gi}_up.txt"), "climbs out of the output directory\n"),
+                proc::rfile(&format!("pre/../f{gi}_norm.txt"), "dot-dot inside the output directory\n"),
+                proc::rfile(&format!("f{gi}_plain.txt"), "plain\n"),
+            ];
+            s.reply = valid(&s.files);
+        }
         B::Trunc(k) => {
             let (f, d) = trunc_base(gi);
             let full = proc::encode_reply(&f, &d);
@@ -510,6 +522,34 @@ fn target_rel(st: St, path: &str, work: &str) -> (String, bool) {
     } else {
         (p.to_string(), false)
     }
+}
+
+/// For a relative reply path with a '..' component: where it would land if the components were followed from the
+/// output directory (relative to the work directory; None = above the work directory), and whether that place is
+/// still below the output directory.
+fn dotdot_target(st: St, path: &str) -> Option<(Option<String>, bool)> {
+    if !path.split('/').any(|c| c == "..") {
+        return None;
+    }
+    let root: Vec<&str> = if st.dash_o() { vec!["out"] } else { vec![] };
+    let mut cur = root.clone();
+    let mut above_work = false;
+    for c in path.split('/') {
+        match c {
+            "" | "." => {}
+            ".." => {
+                if cur.pop().is_none() {
+                    above_work = true;
+                }
+            }
+            x => cur.push(x),
+        }
+    }
+    if above_work {
+        return Some((None, false));
+    }
+    let inside = cur.len() > root.len() && cur[..root.len()] == root[..];
+    Some((Some(cur.join("/")), inside))
 }
 
 /// Build the scenario; `half_total` = request length to use for the "reads half" rows (0 while describing).
@@ -952,6 +992,28 @@ impl Family for Fam {
                                 after.map(|e| proc::show_bytes(&e.contents)),
                                 ctx(&obs)
                             ),
+                        );
+                    }
+                    continue;
+                }
+                if let Some((landing, inside)) = dotdot_target(c.st, &f.path) {
+                    // "relative paths are placed below the output directory": a path with a '..' component is either
+                    // refused (an error that mentions it) or ends up below the output directory; nothing outside
+                    // the output directory may change (only the inside landing place is an allowed change, so an
+                    // escape shows as an unexpected change below)
+                    soft_paths.push((f.path.clone(), rel.clone()));
+                    let reported = lines.iter().any(|l| l.contains(f.path.as_str()));
+                    let written_inside = match (&landing, inside) {
+                        (Some(l), true) => {
+                            allowed_changes.push(l.clone());
+                            obs.after.get(l).map(|e| e.kind == Kind::File && e.contents == f.contents.as_bytes()).unwrap_or(false)
+                        }
+                        _ => false,
+                    };
+                    if !reported && !written_inside {
+                        out.violate(
+                            format!("c18/{fam}/relative-path-with-dot-dot-neither-refused-nor-below-the-output-directory"),
+                            format!("generator {gi} (row {}) sent a valid reply naming {}; it would land at {:?} (below the output directory: {inside}); no error mentions the path and no such file is below the output directory. {}", s.row, f.path, landing, ctx(&obs)),
                         );
                     }
                     continue;
